@@ -426,6 +426,14 @@ func (g *priGen) random(n int) {
 		used := map[int]bool{}
 		r := g.rnd.Intn(100)
 		switch {
+		case r < 4:
+			// a call parked at the entry of its critical section (mutex held through the hook)
+			if g.rnd.Intn(2) == 0 {
+				g.heldBatch([]pOp{g.push()})
+			} else {
+				g.heldBatch([]pOp{g.push(), {Op: plPopDirect}})
+			}
+			continue
 		case r < 22:
 			if t, ok := g.newTid(); ok {
 				b.Launches = []int{t}
@@ -477,6 +485,27 @@ func (g *priGen) random(n int) {
 	}
 }
 
+// the queue's mutex is held while the calls start and park at their critical section; see pBatch.Held
+func (g *priGen) heldBatch(ops []pOp) {
+	tid := -1
+	if len(g.virtIdle) > 0 {
+		tid = g.virtIdle[0]
+		g.virtIdle = g.virtIdle[1:]
+	} else if t, ok := g.newTid(); ok {
+		tid = t
+	}
+	var lanes [][]pOp
+	for _, op := range ops {
+		lanes = append(lanes, []pOp{op})
+	}
+	g.exec(pBatch{Held: true, HeldTid: tid, Lanes: lanes})
+	if tid >= 0 {
+		if c := g.run.consumers[tid]; c != nil && !c.holding && !c.ret {
+			g.virtIdle = append(g.virtIdle, tid)
+		}
+	}
+}
+
 // let every holding consumer pop, one after the other, until nobody holds a token
 func (g *priGen) drainHolders(max int) {
 	for i := 0; i < max && len(g.holding()) > 0 && !g.run.res.stuck; i++ {
@@ -484,7 +513,7 @@ func (g *priGen) drainHolders(max int) {
 	}
 }
 
-var priScenarios = []string{"random", "resignal", "park-push", "collapse", "full"}
+var priScenarios = []string{"random", "resignal", "park-push", "collapse", "full", "push-parked", "push-parked"}
 
 func (g *priGen) scenario(name string) {
 	rnd := g.rnd
@@ -550,6 +579,31 @@ func (g *priGen) scenario(name string) {
 		g.exec(pBatch{Lanes: [][]pOp{{g.push()}, {{Op: plPopDirect}}}})
 		g.drainHolders(3)
 		g.random(4)
+	case "push-parked":
+		// a Push (or a Pop) is parked at the entry of its critical section: nothing of it may be visible yet - in
+		// particular no token; a consumer that finds one pops at once
+		if rnd.Intn(3) == 0 {
+			g.random(1 + rnd.Intn(3))
+		}
+		switch rnd.Intn(4) {
+		case 0, 1:
+			g.heldBatch([]pOp{g.push()})
+		case 2:
+			g.heldBatch([]pOp{g.push(), {Op: plPopDirect}})
+		default:
+			g.exec(pBatch{Lanes: [][]pOp{{g.push()}}})
+			g.heldBatch([]pOp{{Op: plPopDirect}, g.push()})
+		}
+		g.drainHolders(3)
+		if rnd.Intn(2) == 0 {
+			if t, ok := g.newTid(); ok {
+				g.exec(pBatch{Launches: []int{t}})
+			}
+		} else if op, ok := g.tryRecvOp(); ok {
+			g.exec(pBatch{Lanes: [][]pOp{{op}}})
+		}
+		g.drainHolders(3)
+		g.random(2)
 	case "full":
 		// a refused push does not signal
 		c := int(g.run.sc.Cap)
@@ -702,9 +756,7 @@ func main() {
 					if g.run.res.stuck {
 						stuckCases++
 					}
-					if g.run.res.diverged {
-						diverged++
-					}
+					// (PriQueue consumers are always released at the end of a schedule: no cut needed)
 					hist[fmt.Sprintf("priq maxparked=%d", g.run.res.maxParked)]++
 					emitPri(e, g, scen)
 					continue
